@@ -621,6 +621,11 @@ class Runner:
             opposite = self.handle_stdout
         if opposite in self.threads and self.threads[opposite].is_dead:
             return 1
+        # Same when the stdin worker died: the subprocess may sit there waiting
+        # for input that will never come, keeping its output streams open.
+        stdin = self.handle_stdin
+        if stdin in self.threads and self.threads[stdin].is_dead:
+            return 1
         return None
 
     def create_io_threads(
